@@ -1,4 +1,4 @@
-/* C07-corpus: known C07:engines-disagree:gen-opt:crash
+/* C07-corpus: pass   (was known C07:engines-disagree:gen-opt:crash until /repo e56bef25)
    MIR generator (copy_prop, mir-gen.c ext-of-ext rewrite) dereferences a NULL ssa edge at -O2/-O3 (also -el/-eb):
    def_insn == insn for `ext16 x,x` in a loop; interpreter and -O0/-O1 run the same MIR correctly. C01 territory. */
 #include <stdio.h>
